@@ -44,6 +44,9 @@ type Step struct {
 	//                    "clearhash","resize","isready".
 	Op   string `json:"op"`
 	Line string `json:"line,omitempty"`
+	// Ws > 0: the line travels with extra white space the protocol allows
+	// (1 trailing blank, 2 leading blank, 3 double blanks, 4 tabs, 5 leading tab and trailing blanks)
+	Ws int `json:"ws,omitempty"`
 	// Orig is the undamaged line a damaged line was derived from.
 	Orig string `json:"orig,omitempty"`
 	// MaxMs bounds a wait in fake milliseconds (0 = oracle default).
